@@ -1372,6 +1372,8 @@ func main() {
 		fmt.Fprintf(&sw, "(* driver/options/*.go (C19): the closures *)\nDefinition option_code : list (string * list dstmt) := [\n%s].\n", strings.Join(oc, ";\n"))
 		fmt.Fprintf(&sw, "(* driver/network/acquirepriv.go Driver.determineCurrentPriv *)\nDefinition determine_current_priv_code : list dstmt :=\n  %s.\n",
 			decisionFunc("driver/network/acquirepriv.go", "Driver.determineCurrentPriv"))
+		fmt.Fprintf(&sw, "(* channel/read.go getProcessReadBufSearchDepth *)\nDefinition search_depth_code : list dstmt :=\n  %s.\n",
+			decisionFunc("channel/read.go", "getProcessReadBufSearchDepth"))
 		fmt.Fprintf(&sw, "(* channel/read.go processReadBuf *)\nDefinition process_read_buf_code : list dstmt :=\n  %s.\n",
 			decisionFunc("channel/read.go", "processReadBuf"))
 		fmt.Fprintf(&sw, "(* driver/netconf/message.go message.serialize, its parameters, and the arguments of its one call in Driver.sendRPC *)\nDefinition serialize_code : list dstmt :=\n  %s.\nDefinition serialize_params : list string := %s.\nDefinition serialize_call_args : list string := %s.\n",
